@@ -47,6 +47,8 @@ def classify(component, what, case):
             return "F59"
         if "null pointer" in err and (fnname in ("xpath_bit_is_set", "xpath_deref", "xpath_enum_value") or "in xpath_bit_is_set" in err):
             return "F32"
+        if "null pointer" in err and (fnname == "xpath_sum" or "in xpath_sum" in err):
+            return "F63"
     return None
 
 
@@ -307,6 +309,10 @@ def witnesses(cx):
             cx.count(("witness", fid, X.prefix(e)), True, "witness:" + fid)
             if a != r:
                 cx.fail(COMP, "result differs from XPath 1.0 (%s)" % fid, {"witness": fid, "expr": X.render(e), "ctx": c, "impl": a, "xpath10": r})
+    # F63: compiling a schema whose must expression applies sum() to the root node
+    ya = X.YANG_A.replace("container c {", 'container c { must "sum(/) = 0";', 1)
+    cx.count(("witness", "F63"), True, "witness:F63")
+    cx.run_impl(HARNESS, ["s %s schema %s %s" % (COMP, hexs(ya), hexs(X.YANG_B))], component=COMP)
     for (fid, xml, c, e) in X.CRASH_WITNESSES:
         lines = [schema_line("s"), "t %s load x %s" % (COMP, hexs(xml)), "w %s eval %d %s -" % (COMP, c, hexs(X.render(e)))]
         cx.count(("witness", fid, X.prefix(e)), True, "witness:" + fid)
